@@ -207,6 +207,30 @@ def check_chain(acc, w, spec):
             allok = False
         else:
             acc.inc("probe_" + pname.split(":")[0])
+    # history shape: the prefix of the chain is bound to a local and *forced* (manifested) before the last layer is
+    # added to that same value - what the prefix learnt about itself (assertions checked, fields cached) must not
+    # leak into the extended object, whose `self` is a different object
+    if len(layers_spec) >= 2 and len(spec) == 3:
+        nodes = [layer_node(k, i, a) for i, (k, a) in enumerate(layers_spec)]
+        pre = compose(nodes[:-1], spec[1], remove if remove is not None and remove[0] < len(nodes) - 1 else None)
+        for style in ("+", "objext"):
+            ext = ("bin", "+", V("pre"), nodes[-1]) if style == "+" else ("objext", V("pre"), nodes[-1])
+            ast = ("local", [("bind", "pre", pre)],
+                   ("local", [("bind", "forced", prog.STD("toString", V("pre"))), ("bind", "o", ext)],
+                    ("if", ("bin", ">=", prog.STD("length", V("forced")), N(0)), V("o"), ("lit", "null"))))
+            try:
+                ref = interp.Interp().run(ast)
+            except (interp.Abstain, RecursionError):
+                acc.inc("abstained")
+                continue
+            src = jast.to_source(ast)
+            acc.inc("evaluations")
+            got, _ = c01.observe(w, {"op": "eval", "code": src, "state_id": "s"})
+            if not c01.compare(acc, label, src, ref, got, {"probe": "forced-prefix:" + style, "spec": repr(spec)},
+                               {"probe": "forced-prefix", "layers": len(layers_spec), "removeKey": remove is not None}):
+                allok = False
+            else:
+                acc.inc("probe_forced-prefix")
     if allok:
         acc.distinct(repr(spec))
         for k, _ in layers_spec:
